@@ -1,4 +1,5 @@
 import numpy as np
+import pandas as pd
 
 from PEPit.function import Function
 from PEPit.block_partition import BlockPartition
@@ -89,7 +90,7 @@ class BlockSmoothConvexFunction(Function):
 
         # Set tables_of_constraints attributes
         for k in range(self.partition.get_nb_blocks()):
-            self.tables_of_constraints["smoothness_convexity_block_{}".format(k)] = [[]]*len(self.list_of_points)
+            self.tables_of_constraints["smoothness_convexity_block_{}".format(k)] = [list() for _ in self.list_of_points]
 
         # Browse list of points and create interpolation constraints
         for i, point_i in enumerate(self.list_of_points):
@@ -124,3 +125,16 @@ class BlockSmoothConvexFunction(Function):
                                                                                                  xi_id, xj_id))
                         self.tables_of_constraints["smoothness_convexity_block_{}".format(k)][i].append(constraint)
                         self.list_of_class_constraints.append(constraint)
+
+        # Turn the tables of constraints into pandas.DataFrame objects (one row and one column per point)
+        point_names = [point[0].name or "Point_{}".format(point_index) for point_index, point in
+                       enumerate(self.list_of_points)]
+        for k in range(self.partition.get_nb_blocks()):
+            table_name = "smoothness_convexity_block_{}".format(k)
+            if self.list_of_points:
+                df = pd.DataFrame(np.array(self.tables_of_constraints[table_name]),
+                                  columns=point_names, index=point_names)
+                df.columns.name = "IC_{}".format(function_id)
+                self.tables_of_constraints[table_name] = df
+            else:
+                del self.tables_of_constraints[table_name]
